@@ -179,6 +179,18 @@ def inflate_dict(ck, P):
                   "inflateSetDictionary no longer rejects a call outside mode Dict for wrapped streams", where(sd))
         ck.decide(any(s.rel == "Ne" and "checksum" in s.names and "adler32" in " ".join(s.calls) for s in d_err), R3, "adler-compare", "adler32(1, dict) != checksum -> DataError",
                   "inflateSetDictionary does not compare the dictionary's Adler-32 with the id from the stream", where(sd))
+        # ... and nothing but the stream position (mode == Dict) decides whether that comparison happens: it is not a checksum
+        # of the data that inflateValidate may switch off, it is what makes "exactly a dictionary with that Adler-32" true
+        derr_blocks = [b for a, rv, b, ln in rej if rv == "DataError"]
+        extra = set()
+        for b in derr_blocks:
+            for a in sd.dominating_atoms(b):
+                s_ = sig.sig(a, sd)
+                if "wrap" in s_.names and (4 in s_.consts or "BitAnd" in s_.ops):
+                    extra.add(mir.atom_str(a, sd)[:60])
+        ck.decide(bool(derr_blocks) and not extra, R3, "adler-compare:unconditional", "the id comparison does not depend on the validation bit",
+                  "inflateSetDictionary compares the dictionary id only under %s: with checking switched off (inflateValidate(0)) any "
+                  "dictionary is accepted" % sorted(extra), where(sd))
         ad = sd.live_calls(r"adler32::adler32$")
         ck.decide(bool(ad) and atoms.cval(sd.call_args(ad[0])[0]) == 1, R3, "adler-init", "Adler-32 of the dictionary starts from 1", "dictionary Adler-32 does not start from 1", where(sd))
         ex = sd.live_calls(r"window::Window::extend$")
